@@ -49,7 +49,7 @@ check("C09", "model_checking",
       "DESIGN.md §2.4, §3 C09", engine="engine/common (history enumeration)")
 check("C10", "exploration",
       "stateless model checking of the real code: controlled scheduler at every sync / sync-atomic operation (build-time overlay shims), DFS over all schedules within a preemption bound and all sync.Pool answers within a deviation bound; separate free-running -race pass",
-      "76 small colliding harnesses (metrics recording, pairs of public operations on shared pools, hold-vs-release, first use of lazily built globals) are explored over every interleaving with <=2 (quick) / <=3 (thorough) preemptions and <=1 / <=2 pool deviations (complete for the two-thread metrics harnesses); each call must return what it returns alone, metrics totals must equal a counter/min/max model, no deadlock; the same bodies run free under -race (reported as sampling).",
+      "122 small colliding harnesses (metrics recording, pairs of public operations on shared pools, hold-vs-release, first use of lazily built globals) are explored over every interleaving with <=2 (quick) / <=3 (thorough) preemptions and <=1 / <=2 pool deviations (complete for the two-thread metrics harnesses); each call must return what it returns alone, metrics totals must equal a counter/min/max model, no deadlock; the same bodies run free under -race (reported as sampling).",
       "Trusted: sync shims model Mutex/RWMutex/Once/WaitGroup/Pool by their contracts; atomics are sequentially consistent; plain-memory races between two sync points are only seen by the -race pass.",
       "DESIGN.md §2.5, §3 C10", engine="engine/sched + engine/shim + tools/overlaygen")
 check("C11", "fault_enumeration",
